@@ -313,6 +313,8 @@ def decide(prop, scratch, tier, seed, t0):
                         payload["ops"] = small
                         payload["ops_pretty"] = describe_ops(small)
                         payload["what_unshrunk"] = payload["what"]
+                        if getattr(shrink, "last_what", None):
+                            payload["what"] = shrink.last_what
             except Exception as ex:  # shrinking is best effort
                 payload["shrink_error"] = repr(ex)
         path = core.write_replay(pid, payload)
@@ -385,12 +387,16 @@ def shrink(prop, scratch, ops, backend, cls, budget=70):
         if io is None:
             return cls == "crash"
         try:
-            return any(f.get("class") == cls for f in prop.oracle(b_ops, io, backend))
+            hits = [f for f in prop.oracle(b_ops, io, backend) if f.get("class") == cls]
         except Exception:
             return False
+        if hits:
+            last_what[0] = hits[0]["what"]
+        return bool(hits)
 
     runs = 0
     cur = list(ops)
+    last_what = [None]
     improved = True
     while improved and runs < budget:
         improved = False
@@ -421,6 +427,7 @@ def shrink(prop, scratch, ops, backend, cls, budget=70):
                         cps = cand_cps
                         improved = True
                         break
+    shrink.last_what = last_what[0] if cur != list(ops) else None
     return cur, runs
 
 
